@@ -12,6 +12,7 @@ use serde_json::Value;
 use serde_json::json;
 
 mod packages;
+mod positions;
 
 struct Ctx {
   urls: Vec<ModuleSpecifier>,
@@ -571,6 +572,10 @@ fn main() {
   let path = std::env::args().nth(1).expect("usage: verif_replay <world.json>");
   let input: Value =
     serde_json::from_str(&std::fs::read_to_string(path).unwrap()).unwrap();
+  if input["world"].get("positions").is_some() {
+    println!("{}", positions::run(&input));
+    return;
+  }
   if input["world"].get("packages").is_some() {
     println!("{}", packages::run(&input));
     return;
